@@ -21,46 +21,61 @@ theorem mem_subst1 (a b : Char) (s : List Char) (x : Char) (h : x ∈ Proofs.Flo
 /-- the text an admitted E-notation field writes, and what it parses to -/
 theorem fltE_written (f : Field) (dec : Nat) (fmt c : Char) (hk : f.kind = .flt dec fmt [c])
     (hfmt : fmt = 'E' ∨ fmt = 'e') (hdec : dec ≤ 12) (hsep : sepOk [c] = true)
-    (neg : Bool) (m : Nat) (e : Int) (hwf : wfn m e)
+    (neg : Bool) (m : Nat) (e : Int) (hwf : wfn m e ∨ m = 0)
     (hfits : Spec.C02.fits f (.dbl (.fin neg m e)) = true) (t : List Char)
     (ht : renderText f (.dbl (.fin neg m e)) = .ok t) :
     (∃ r, parseText f.kind t = some (.dbl r)) ∧ ¬ '\n' ∈ t := by
   obtain ⟨hc1, hc2, hc3⟩ := sep_facts hsep
   obtain ⟨hc4, hc5, hc6⟩ := sep_factsE hsep
-  have hm0 : m ≠ 0 := by
-    intro h0; subst h0
-    have := Proofs.Nearest.two_pow_pos 52
-    have := hwf.1; omega
-  obtain ⟨r, hr, hfit⟩ := round_of_fits_E f dec fmt c hk hfmt neg m e hm0 hfits
-  obtain ⟨t', h1, _, h3, _, m', e', k, _, hsci, hteq⟩ :=
-    fltE_core f dec fmt c hk hfmt hc1 hc2 hc3 hc4 hc5 hc6 neg m e hwf hdec r hr hfit
-  have hdig := sciText_digits m' e' dec (by have := hsci.hK1; omega) (by have := hsci.hK2; omega)
-  have : t = t' := by rw [h1] at ht; injection ht with ht; exact ht.symm
-  subst this
-  refine ⟨⟨r, h3⟩, ?_⟩
-  rw [hteq]
-  intro hm
-  simp only [List.mem_append, List.mem_replicate] at hm
-  rcases hm with hm | hm
-  · exact absurd hm.2 (by decide)
-  · rcases mem_subst1 _ _ _ _ hm with h | h
-    · subst h; revert hsep; decide
-    · unfold sciText at h
-      rcases bodyE_chars neg _ _ _ _ _ hdig '\n' h with h | h | h | h | h
-      · exact absurd h (by decide)
-      · exact absurd h (by decide)
-      · rcases hfmt with rfl | rfl <;> exact absurd h (by decide)
-      · exact absurd h (by decide)
-      · exact absurd h (by decide)
+  -- the characters of an E-notation text
+  have hchars : ∀ (k : Nat) (ip fp : List Char) (eneg : Bool) (exd : List Char),
+      (∀ x ∈ ip ++ fp ++ exd, x.isDigit = true) →
+      ¬ '\n' ∈ List.replicate k ' ' ++ Proofs.FloatLaw.subst1 '.' c
+        (bodyE neg ip fp (if (fmt == 'E') = true then 'E' else 'e') eneg exd) := by
+    intro k ip fp eneg exd hdig hm
+    simp only [List.mem_append, List.mem_replicate] at hm
+    rcases hm with hm | hm
+    · exact absurd hm.2 (by decide)
+    · rcases mem_subst1 _ _ _ _ hm with h | h
+      · subst h; revert hsep; decide
+      · rcases bodyE_chars neg ip fp _ eneg exd hdig '\n' h with h | h | h | h | h
+        · exact absurd h (by decide)
+        · exact absurd h (by decide)
+        · rcases hfmt with rfl | rfl <;> exact absurd h (by decide)
+        · exact absurd h (by decide)
+        · exact absurd h (by decide)
+  rcases hwf with hwf | rfl
+  · have hm0 : m ≠ 0 := by
+      intro h0; subst h0
+      have := Proofs.Nearest.two_pow_pos 52
+      have := hwf.1; omega
+    obtain ⟨r, hr, hfit⟩ := round_of_fits_E f dec fmt c hk hfmt neg m e hm0 hfits
+    obtain ⟨t', h1, _, h3, _, m', e', k, _, hsci, hteq⟩ :=
+      fltE_core f dec fmt c hk hfmt hc1 hc2 hc3 hc4 hc5 hc6 neg m e hwf hdec r hr hfit
+    have hdig := sciText_digits m' e' dec (by have := hsci.hK1; omega) (by have := hsci.hK2; omega)
+    have : t = t' := by rw [h1] at ht; injection ht with ht; exact ht.symm
+    subst this
+    refine ⟨⟨r, h3⟩, ?_⟩
+    rw [hteq]
+    unfold sciText
+    exact hchars k _ _ _ _ hdig
+  · obtain ⟨t', h1, _, h3, _, d, k, _, hteq⟩ :=
+      Proofs.FloatEZero.fltE_zero_core f dec fmt c hk hfmt hc1 hc2 hc3 hc4 hc5 hc6 neg e (by omega) hfits
+    have : t = t' := by rw [h1] at ht; injection ht with ht; exact ht.symm
+    subst this
+    refine ⟨⟨_, h3⟩, ?_⟩
+    rw [hteq]
+    unfold Proofs.FloatEZero.zeroText
+    exact hchars k _ _ _ _ (Proofs.FloatEZero.zeroText_digits d)
 
 /-- the admitted field kinds -/
 def FldFE (f : Field) : Prop := f.kind = .int ∨ f.kind = .lit ∨ FltF f ∨ FltE f
 
 /-- what the property's "parsed values are representable" means for floats: finite, below
-`2^1013`, fitting; in an E-notation field moreover normal and at least `2^-948` -/
+`2^1013`, fitting; in an E-notation field moreover zero, or normal and at least `2^-948` -/
 def FitFE (f : Field) (l : List Char) : Prop :=
   ∀ y, f.readText l = .dbl y →
-    ∃ neg m e, y = .fin neg m e ∧ Proofs.FloatLoop.wfs m e ∧ Spec.C02.fits f (.dbl y) = true ∧ (FltE f → wfn m e)
+    ∃ neg m e, y = .fin neg m e ∧ Proofs.FloatLoop.wfs m e ∧ Spec.C02.fits f (.dbl y) = true ∧ (FltE f → wfn m e ∨ m = 0)
 
 theorem fitF_of_fitFE {f : Field} {l : List Char} (h : FitFE f l) :
     ∀ y, f.readText l = .dbl y →
@@ -87,7 +102,9 @@ theorem law_of_read_FE (f : Field) (l : List Char) (hk : FldFE f) (hgeo : f.stop
       have hv : f.readText l = .dbl y := by simp [Field.readText, parseText, hk, hp]
       obtain ⟨neg, m, e, rfl, _, hfits, hwfn⟩ := hfitF y hv
       rw [hv]
-      exact law_flt_E f dec fmt c hk hfmt hsep neg m e (hwfn ⟨dec, fmt, c, hk, hfmt, hdec, hsep⟩) hdec hfits
+      rcases hwfn ⟨dec, fmt, c, hk, hfmt, hdec, hsep⟩ with hw | rfl
+      · exact law_flt_E f dec fmt c hk hfmt hsep neg m e hw hdec hfits
+      · exact law_flt_E_zero f dec fmt c hk hfmt hsep neg e hdec hfits
 
 theorem no_newline_FE (f : Field) (l : List Char) (hk : FldFE f) (hline : ¬ '\n' ∈ l.dropLast)
     (hfitF : FitFE f l) (t : List Char) (ht : renderText f (f.readText l) = .ok t) : ¬ '\n' ∈ t := by
@@ -139,8 +156,8 @@ theorem canon_some_FE (f : Field) (l : List Char) (v : Val) (hk : FldFE f)
 For every unambiguous list of positional register types whose fields are integers, literals,
 F-notation floats (up to 323 decimals) or E-notation floats (up to twelve decimals), and every
 text whose parsed numbers are representable in their fields (integers fit when printed;
-floats are finite, below `2^1013` and fit when printed; in E-notation fields normal and at
-least `2^-948`): read-then-write is a projection and `Spec.C06.holds`. -/
+floats are finite, below `2^1013` and fit when printed; in E-notation fields zero, or normal
+and at least `2^-948`): read-then-write is a projection and `Spec.C06.holds`. -/
 theorem main_regs_FE (regs : List RegDef) (x : List Char) (hamb : unambiguous regs = true)
     (hdel : ∀ r ∈ regs, r.delimiter = .none)
     (hkinds : ∀ r ∈ regs, ∀ f ∈ r.fields, FldFE f ∧ f.stop = f.size + f.start)
@@ -203,7 +220,7 @@ example :
     · rw [hr1] at hy
       injection hy with hy; subst hy
       exact ⟨false, _, _, rfl, ⟨by decide, by decide, by decide⟩, by decide +kernel,
-        fun _ => ⟨by decide, by decide, by decide, by decide⟩⟩
+        fun _ => Or.inl ⟨by decide, by decide, by decide, by decide⟩⟩
     · rw [hr2] at hy; exact absurd hy (by simp)
 
 end Props.C06
